@@ -102,10 +102,10 @@ Section RoundTrip.
   Lemma roundtrip_pc c : wf_pc c = true -> from_pb_pc (Some (to_pb_pc c)) = Ok c.
   Proof.
     destruct c as [i s h]. unfold WireModel.wf_pc. cbn [pc_signer pc_sig pc_hash]. intros Hw.
-    apply andb_true_iff in Hw as [Hw Hi]. apply andb_true_iff in Hw as [Hw Hh]. apply andb_true_iff in Hw as [Hs Hn].
+    apply andb_true_iff in Hw as [Hw Hi]. apply andb_true_iff in Hw as [Hs Hh].
     unfold to_pb_pc, WireModel.from_pb_pc. cbn [pc_sig pc_hash ppc_sig ppc_hash].
     rewrite (roundtrip_sig _ Hs), (fix32_id _ Hh). unfold new_partial_cert.
-    destruct (sig_participants s) as [ids| |]; try discriminate. apply N.eqb_eq in Hi. now subst.
+    destruct (sig_participants s) as [ids| |]; apply N.eqb_eq in Hi; now subst.
   Qed.
 
   Lemma roundtrip_tc t : wf_tc t = true -> from_pb_tc (Some (to_pb_tc t)) = t.
